@@ -1206,8 +1206,11 @@ class FnPE:
         return out + [m]
 
     # ------------------------------------------------------------------ expressions
-    def iter_elems(self, n):
+    def iter_elems(self, n, small_range=False):
         """the elements an iteration over `n` yields, when that is written in the source"""
+        if small_range and isinstance(n, ast.Call) and isinstance(n.func, ast.Name) and n.func.id == "range" and "range" not in self.locals \
+                and len(n.args) == 1 and not n.keywords and isinstance(n.args[0], ast.Constant) and isinstance(n.args[0].value, int) and 0 <= n.args[0].value <= 8:
+            return [const(i, n) for i in range(n.args[0].value)]
         if is_seq_lit(n) or (isinstance(n, ast.Set) and not any(isinstance(e, ast.Starred) for e in n.elts) and len(n.elts) <= 1):
             return list(n.elts)
         if is_rec_lit(n):
@@ -1512,7 +1515,8 @@ class FnPE:
                 return True
             g = gens[i]
             it = self.expr_nohoist(subst(g.iter, mp), env) if i else g.iter
-            el = self.iter_elems(it)
+            # a generator / list over range(<small literal>) whose items are taken apart again (tuple-unpacked) is a family of named values
+            el = self.iter_elems(it, small_range=isinstance(e, ast.GeneratorExp))
             if el is None or len(el) > MAXUNROLL:
                 return False
             for x in el:
